@@ -362,7 +362,8 @@ def argument_case(ctx, r, cid):
     """Arrays passed as arguments of queries / static helpers."""
     from pyunicorn.core import GeoGrid, Network, InteractingNetworks
     from pyunicorn.timeseries import (RecurrencePlot, Surrogates,
-                                      VisibilityGraph, CrossRecurrencePlot)
+                                      VisibilityGraph, CrossRecurrencePlot,
+                                      RecurrenceNetwork, JointRecurrencePlot)
     from pyunicorn.funcnet import CouplingAnalysis
     from pyunicorn.eventseries import EventSeries
     n = int(r.integers(5, 10))
@@ -380,6 +381,10 @@ def argument_case(ctx, r, cid):
     data = np.round(r.normal(size=(25, 3)) * 8) / 8
     emb = np.round(r.normal(size=(15, 2)) * 8) / 8
     dist = r.integers(0, 5, 8)
+    x32 = np.ascontiguousarray(x, dtype=np.float32)
+    X32 = np.ascontiguousarray(emb, dtype=np.float32)
+    d32 = np.ascontiguousarray(data, dtype=np.float32)
+    lat32, lon32 = np.float32(lat), np.float32(lon)
     nodes1, nodes2 = np.arange(n // 2), np.arange(n // 2, n)
     net = InteractingNetworks(adjacency=A.copy(), silence_level=3)
     net.set_link_attribute("w", W.copy())
@@ -401,6 +406,39 @@ def argument_case(ctx, r, cid):
          lambda: net.nsi_betweenness(sources=nodes1, targets=nodes2)),
         ("RecurrencePlot.__init__", [x],
          lambda: RecurrencePlot(x, threshold=0.5, silence_level=3)),
+        # inputs that already have the library's internal dtype/layout are
+        # the ones a conversion without copy would alias
+        ("RecurrencePlot.__init__[float32]", [x32],
+         lambda: RecurrencePlot(x32, threshold=0.5, silence_level=3)),
+        ("RecurrencePlot.__init__[float32,normalize]", [x32],
+         lambda: RecurrencePlot(x32, threshold=0.5, normalize=True,
+                                silence_level=3)),
+        ("RecurrencePlot.__init__[float32,2d,normalize]", [X32],
+         lambda: RecurrencePlot(X32, threshold=0.5, normalize=True,
+                                silence_level=3)),
+        ("RecurrenceNetwork.__init__[float32,normalize]", [x32],
+         lambda: RecurrenceNetwork(x32, recurrence_rate=0.2, normalize=True,
+                                   silence_level=3)),
+        ("CrossRecurrencePlot.__init__[float32,normalize]", [x32],
+         lambda: CrossRecurrencePlot(x32, x32[:20], threshold=0.5,
+                                     normalize=True, silence_level=3)),
+        ("JointRecurrencePlot.__init__[float32,normalize]", [x32],
+         lambda: JointRecurrencePlot(x32, x32[::-1].copy(),
+                                     threshold=(0.5, 0.5), normalize=True,
+                                     silence_level=3)),
+        ("VisibilityGraph.__init__[float32]", [x32],
+         lambda: VisibilityGraph(x32, silence_level=3)),
+        ("Surrogates.__init__[float64,normalize_original_data]", [X],
+         lambda: Surrogates(X, silence_level=3).original_distribution(
+             Surrogates.test_pearson_correlation, n_bins=5)),
+        ("CouplingAnalysis.cross_correlation[float32]", [d32],
+         lambda: CouplingAnalysis(d32, silence_level=3)
+         .cross_correlation(tau_max=2, lag_mode="max")),
+        ("GeoGrid.__init__[float32]", [lat32, lon32],
+         lambda: GeoGrid(np.arange(3.), lat32, lon32,
+                         silence_level=3).angular_distance()),
+        ("Network.__init__[int16 csc]", [],
+         lambda: Network(adjacency=A.astype(np.int16), silence_level=3)),
         ("RecurrencePlot.__init__[dim,tau]", [x],
          lambda: RecurrencePlot(x, dim=2, tau=1, recurrence_rate=0.2,
                                 silence_level=3)),
